@@ -221,9 +221,14 @@ class C03(Check):
                 spec = dict(before=[], after=[], errh=[(code, ('c', loop))])
                 req['route'] = ('h', [], ('ret', loop))
                 stats['loops1000'] += 1
-            obs = core.with_timeout(lambda: run_real(spec, req), 20)
+            try:
+                obs = zoo.watchdog(lambda: run_real(spec, req), 20)
+                ans = answer(obs)
+            except zoo.HangB:
+                obs = dict(urlrepr=zoo.url_repr(zoo.make_environ(req, []), req), starts=[], shape='hang', log=[])
+                ans = 'hang'
+                stats['hangs'] = stats.get('hangs', 0) + 1
             line = 'wsgi serve ' + ' '.join(zoo.ser_app(spec) + zoo.ser_req(req, obs['urlrepr']))
-            ans = answer(obs)
             kind = 'plain200' if (req['route'][0] == 'h' and req['route'][2][0] == 'ret' and
                                   req['route'][2][1][0] == 't' and not spec['before'] and not spec['after'] and
                                   not req['route'][1]) else 'zoo'
@@ -379,8 +384,8 @@ class C03(Check):
                 continue
             evals += 1
             try:
-                bad = core.with_timeout(lambda: self._oracle(spec, req), 20)
-            except core.Hang:
+                bad = zoo.watchdog(lambda: self._oracle(spec, req), 20)
+            except zoo.HangB:
                 bad = [('hang', 'request did not finish within 20 s')]
             for key, what in bad:
                 findings.append(Finding(f'C03:{key}', what, dict(app=enc(spec), req=enc(req))))
